@@ -49,9 +49,14 @@ def run(ctx):
     if fault:
         for v in fault.get("violations", [])[:5]:
             found += 1
+            if v.get("hint_index") == -1:
+                what = "honest execution of wrapper %s on %s: %s (%s)" % (
+                    v["wrapper"], v["args"], v["mutation"], str(v.get("outcome"))[:200])
+            else:
+                what = ("a run with one altered hint answer SUCCEEDED with a different result: wrapper %s args %s "
+                        "hint #%s (%s) %s" % (v["wrapper"], v["args"], v["hint_index"], v["hint"], v["mutation"]))
             ctx.violation(
-                "a run with one altered hint answer SUCCEEDED with a different result: wrapper %s args %s "
-                "hint #%s (%s) %s" % (v["wrapper"], v["args"], v["hint_index"], v["hint"], v["mutation"]),
+                what,
                 dict(v, replay_cmd="./check C03 --tier %s" % ctx.tier), found_input=True,
                 fingerprint="%s:%s" % (v["wrapper"], v["hint"]))
         if fault.get("error"):
@@ -81,10 +86,25 @@ def run(ctx):
         "proof_times_s": hc.proof_times(make_out),
         "evaluations": fs.get("mutated_runs", 0),
         "distinct_nontrivial": fs.get("distinct_nontrivial", 0),
-        "rule": "fault injection: for every wrapper x operand tuple (boundary x boundary + seeded random) the honest "
-                "run is recorded; then for every occurrence of a pure Core hint in that run and every alternative "
-                "answer (flip boolean / 0 / 1, +1, -1, field negation, swapped output cells, (q+1, r-d), (q-1, r+d), "
-                "seeded random felt) the run is repeated on cairo-vm with that one answer replaced. "
+        "parametric_decision_classes": fs.get("parametric_decision_classes", 0),
+        "parametric_decision_class_names": fs.get("parametric_decision_class_names", []),
+        "hint_kind_x_lie_kind_pairs": fs.get("hint_kind_x_lie_kind_pairs", 0),
+        "hint_kind_x_lie_kind": fs.get("hint_kind_x_lie_kind", {}),
+        "multi_limb_operand_tuples": fs.get("multi_limb_operand_tuples", 0),
+        "honest_results_checked_against_spec": fs.get("honest_results_checked_against_spec", 0),
+        "rule": "wrappers: one per libfunc instance plus one per DECISION CLASS of the parametric libfuncs "
+                "(bounded_int_{constrain,div_rem,add,sub,mul,trim_min,trim_max,is_zero}, downcast between BoundedInts "
+                "and from felt252: both sides of every threshold of the Rust that picks constants/algorithms, negative / "
+                "zero-crossing / 2^128-wide / far-from-zero ranges). Operands: boundary x boundary (+ the thresholds "
+                "of the instantiation, + the full cross product of per-limb boundary values for u256/u512) + seeded "
+                "random. Every tuple is run honestly (must not fail in the VM; parametric wrappers are compared with "
+                "their mathematical meaning); then for every occurrence of a pure Core hint (on at most 120/500 "
+                "evenly spread tuples per wrapper in quick/thorough) and every lie -- generic: flip / 0 / 1, +-1, field "
+                "negation, +-2^128, swapped cells, (q+-1, r-+d), random felt/u128/small; by hint kind: DivMod "
+                "divmod(a+kP, b), (q-1, r+b), (0, a); WideMul128 split of ab+kP; SquareRoot isqrt(v+kP); LinearSplit "
+                "of v+kP, x=max, x=0; Uint256SquareRoot root+-1 with recomputed remainder/flag; Uint256DivMod / "
+                "Uint512DivModByUint256 of a+P, a+2^128, a+b*2^128 -- the run is repeated on cairo-vm with that one "
+                "answer replaced and must fail or return the honest result. "
                 "distinct_nontrivial = number of distinct (wrapper, args, hint occurrence, answer) with an answer "
                 "different from the honest one, counted by the harness.",
         "input_distribution": fs,
